@@ -48,7 +48,8 @@ type Acc struct {
 	Capped      bool              `json:"capped"`
 	Notes       []string          `json:"notes"`
 
-	cur json.RawMessage
+	cur    json.RawMessage
+	perSig map[string]int // violations recorded per signature (not serialised)
 }
 
 type Violation struct {
@@ -112,7 +113,13 @@ func (a *Acc) Sample(v interface{}) {
 // Violation records a property violation for the current case. sig identifies
 // the failing input class / call site (used for known-findings matching).
 func (a *Acc) Violation(sig, msg string) {
-	if len(a.Violations) >= 50 {
+	// the cap is per signature: a known finding that is hit by hundreds of cases must not
+	// use up the room of a different violation reported later by the same worker
+	if a.perSig == nil {
+		a.perSig = map[string]int{}
+	}
+	a.perSig[sig]++
+	if a.perSig[sig] > 25 || len(a.Violations) >= 2000 {
 		return
 	}
 	if len(msg) > 3000 {
